@@ -7,24 +7,25 @@
    conjuncts and the error texts are regenerated from the source into Gen/SrcPlain.v on every run.
 
    Specification side (Proofs/PlainProofs.v):
-     Conforms classes oc t   some class reachable from the target t over inheritance edges passes a direct
+     Conforms classes dc t   some class reachable from the target t over inheritance edges passes a direct
                              test (is named OBJECT / is the class of the object)
      at_path root p d        d is the object reached from the model root along the child indices p
      Cand classes root n t p d   := at_path root p d /\ name d = n /\ Conforms classes (class d) t
      NoCand / UniqueCand p / ManyCand : no / exactly one (at path p) / at least two distinct candidates
      BuiltinOk classes b n t := metamodel.builtins has an entry n whose type conforms to t            *)
-From TxV Require Import Core.Base Model.PlainDefs Gen.SrcPlain Model.Plain Proofs.PlainProofs.
+From TxV Require Import Core.Base Model.PlainDefs Gen.SrcPlain Model.Plain Proofs.PlainProofs Proofs.PlainBridge.
+From TxV Require Gen.SrcNav Model.Kinds Model.Nav Model.NavSrc Proofs.NavSrcProofs.
 
 (* textx_isinstance terminates (no out-of-fuel) on every class table whose _tx_inh_by entries are classes
    of the table -- cyclic inheritance graphs included -- and decides declarative conformance. *)
-Theorem C07_conforms_total : forall classes oc t,
-  wf_classes classes = true -> conforms_opt classes oc t <> None.
-Proof. intros classes oc t H. exact (conforms_opt_total classes oc H t). Qed.
+Theorem C07_conforms_total : forall classes dc t,
+  wf_classes classes = true -> conforms_opt classes dc t <> None.
+Proof. intros classes dc t H. exact (conforms_opt_total classes dc H t). Qed.
 Print Assumptions C07_conforms_total.
 
-Theorem C07_conforms : forall classes oc t,
-  wf_classes classes = true -> (conforms classes oc t = true <-> Conforms classes oc t).
-Proof. intros classes oc t H. exact (conforms_spec classes oc H t). Qed.
+Theorem C07_conforms : forall classes dc t,
+  wf_classes classes = true -> (conforms classes dc t = true <-> Conforms classes dc t).
+Proof. intros classes dc t H. exact (conforms_spec classes dc H t). Qed.
 Print Assumptions C07_conforms.
 
 (* the list PlainName gets from get_children is exactly the candidate set, each object once *)
@@ -123,13 +124,13 @@ Print Assumptions C07_not_unique_text.
         0 OBJECT, 1 K0, 2 K1, 3 A0 with _tx_inh_by [K0; A0]   (A0: K0 | '(' A0 ')';)
         model: root(class 4, unnamed) { K1 "y"; K0 "y"; K0 "z"; K1 "w" { K0 "w"; K0 "w" } } *)
 Definition ex_classes : list cls :=
-  [ {| cname := [79;66;74;69;67;84]%N; cinh := [] |}; {| cname := [75;48]%N; cinh := [] |};
-    {| cname := [75;49]%N; cinh := [] |}; {| cname := [65;48]%N; cinh := [1; 3]%nat |};
-    {| cname := [77]%N; cinh := [] |} ].
+  [ {| cname := [79;66;74;69;67;84]%N; cinh := []; cpy := [] |}; {| cname := [75;48]%N; cinh := []; cpy := [] |};
+    {| cname := [75;49]%N; cinh := []; cpy := [] |}; {| cname := [65;48]%N; cinh := [1; 3]%nat; cpy := [] |};
+    {| cname := [77]%N; cinh := []; cpy := [] |} ].
 Definition ex_root : node :=
   Node 4 NoName [ Node 2 (NameStr [121]%N) []; Node 1 (NameStr [121]%N) []; Node 1 (NameStr [122]%N) [];
                   Node 2 (NameStr [119]%N) [ Node 1 (NameStr [119]%N) []; Node 1 (NameStr [119]%N) [] ] ].
-Definition ex_builtins : builtins := [([108]%N, Some 1%nat); ([122;122]%N, Some 2%nat)].
+Definition ex_builtins : builtins := [([108]%N, [1%nat]); ([122;122]%N, [2%nat])].
 
 Example C07_nonvacuous :
   wf_classes ex_classes = true /\
@@ -148,3 +149,103 @@ Example C07_nonvacuous :
       {| rname := [119]%N; rcls := 3 |} ] = LoadErr 2 (ErrUnknown [113]%N 2).
 Proof. vm_compute. repeat split. Qed.
 Print Assumptions C07_nonvacuous.
+
+(* ---- several loaded models: PlainName searches only the model that contains the referring object
+        (the translated root of the search is get_model(obj); C05_get_model: that is the root of the
+        containment tree the object is in).  The outcome is a function of that model alone, and a same-named,
+        type-conforming object of another loaded (imported) model is NOT a candidate. *)
+Theorem C07_same_model_only : forall classes world world' i b r,
+  nth i world empty_model = nth i world' empty_model ->
+  resolve_in classes world i b r = resolve_in classes world' i b r.
+Proof. exact same_model_only. Qed.
+Print Assumptions C07_same_model_only.
+
+Theorem C07_imported_not_candidate : forall classes world i j b r p d,
+  wf_classes classes = true -> j <> i ->
+  Cand classes (nth j world empty_model) (rname r) (rcls r) p d ->
+  NoCand classes (nth i world empty_model) (rname r) (rcls r) ->
+  (forall q, resolve_in classes world i b r <> Resolved q) /\
+  (resolve_in classes world i b r = Builtin (rname r) \/
+   resolve_in classes world i b r = ErrUnknown (rname r) (rcls r)).
+Proof. exact imported_not_candidate. Qed.
+Print Assumptions C07_imported_not_candidate.
+
+Example C07_imported_nonvacuous :
+  (* model 0 refers to "z" of class K0; only model 1 (ex_root) has a K0 named "z" *)
+  let world := [Node 4 NoName [Node 2 (NameStr [114]%N) []]; ex_root] in
+  Cand ex_classes (nth 1 world empty_model) [122]%N 1 [2]%nat (Node 1 (NameStr [122]%N) []) /\
+  resolve_in ex_classes world 0 ex_builtins {| rname := [122]%N; rcls := 1 |} = ErrUnknown [122]%N 1 /\
+  resolve_in ex_classes world 1 ex_builtins {| rname := [122]%N; rcls := 1 |} = Resolved [2]%nat.
+Proof.
+  split; [|split; reflexivity].
+  split; [cbn; eapply AtKid; [reflexivity | apply AtHere]|].
+  split; [reflexivity|]. exists 1. split; [apply ReachRefl | reflexivity].
+Qed.
+Print Assumptions C07_imported_nonvacuous.
+
+(* ---- bridges to the models of the neighbouring properties (imported read-only) *)
+
+(* C03's model of _determine_rule_types (Model/Kinds.v, tied to textx/lang.py by kinds_tr.py): for EVERY grammar
+   the computation ends in a state s; the class table whose inheritance lists are the recorded _tx_inh_by
+   (inh s) is well-formed in the sense of the theorems above, and PlainName's type test on it is C03's
+   textx_isinstance (targets other than OBJECT: classes textX created itself; OBJECT: always true). *)
+Theorem C07_kinds_bridge : forall (g : list Kinds.rule) (names : nat -> list N),
+  (forall i, names i <> OBJECT_name) ->
+  exists s, Kinds.determine_types g = Some s /\
+    wf_classes (table_of (length g) names (Kinds.inh s)) = true /\
+    (forall i, i < length g -> Plain.inh (table_of (length g) names (Kinds.inh s)) i = Kinds.inh s i) /\
+    (forall k t, t < length g ->
+       Kinds.isinstance (length g) (Kinds.inh s) k (Some t)
+       = Some (conforms (table_of (length g) names (Kinds.inh s)) [k] t)) /\
+    (forall k, Kinds.isinstance (length g) (Kinds.inh s) k None = Some true).
+Proof. exact kinds_bridge. Qed.
+Print Assumptions C07_kinds_bridge.
+
+(* C05's model of get_children (Model/Nav.v: attribute slots in _tx_attrs order, attr.cont, single / many
+   multiplicities, the collected_ids set; tied to textx/model.py by nav_tr.py): reading a C05 object tree as a
+   C07 tree (children = the model objects held by containment slots, in slot order; class and name through any
+   labelling functions), Plain.collect returns exactly what get_children(selector, root) returns, in the same
+   order, for every selector and every tree whose objects have distinct identities. *)
+Theorem C07_get_children_bridge :
+  forall (cix : list N -> nat) (nmf : list (Nav.ameta * list Nav.obj) -> nameval) sel root,
+  Nav.is_node root = true -> Nav.uniq root ->
+  map snd (collect sel (abs cix nmf root))
+  = map (abs cix nmf) (Nav.get_children (fun x => sel (abs cix nmf x)) root false (fun _ => true)).
+Proof. exact nav_bridge. Qed.
+Print Assumptions C07_get_children_bridge.
+
+(* the two facts of get_children the tree reading relies on, regenerated from textx/model.py (Gen/SrcNav.v):
+   the descent is guarded by `attr.cont`; the single-value branch is taken for MULT_ONE and MULT_OPTIONAL *)
+Theorem C07_get_children_src :
+  SrcNav.src_single_mults = [NavSrc.s_mult_one; NavSrc.s_mult_optional] /\ SrcNav.src_follow_guard = NavSrc.s_attr_cont.
+Proof. exact NavSrcProofs.src_children_facts. Qed.
+Print Assumptions C07_get_children_src.
+
+(* non-vacuity of the bridges.  Grammar  X: C | Y;  Y: '(' X ')' | D;  C, D, E common  (cyclic _tx_inh_by):
+   the recorded lists, and the type test through the C07 table.  Object tree: a root with a contained list
+   [a; "text"; b{c}] and a reference slot: children a, b (and c below b); the reference is not followed. *)
+Example C07_bridges_nonvacuous :
+  (let g := [ {| Kinds.r_attrs := false; Kinds.r_body := Kinds.Body (Kinds.Choice [Kinds.Ref 2; Kinds.Ref 1]) |};
+              {| Kinds.r_attrs := false; Kinds.r_body := Kinds.Body (Kinds.Choice [Kinds.Seq [Kinds.Term; Kinds.Ref 0; Kinds.Term]; Kinds.Ref 3]) |};
+              {| Kinds.r_attrs := true; Kinds.r_body := Kinds.Body Kinds.Term |};
+              {| Kinds.r_attrs := true; Kinds.r_body := Kinds.Body Kinds.Term |};
+              {| Kinds.r_attrs := true; Kinds.r_body := Kinds.Body Kinds.Term |} ] in
+   exists s, Kinds.determine_types g = Some s /\
+     map (cinh) (table_of 5 (fun _ => []) (Kinds.inh s)) = [[2; 1]; [0; 3]; []; []; []] /\
+     map (fun k => conforms (table_of 5 (fun _ => []) (Kinds.inh s)) [k] 0) [2; 3; 4] = [true; true; false]) /\
+  (let cont := {| Nav.aname := [107]%N; Nav.acont := true; Nav.amany := true |} in
+   let rf := {| Nav.aname := [114]%N; Nav.acont := false; Nav.amany := false |} in
+   let c := Nav.Node 4 [67]%N [] in
+   let a := Nav.Node 2 [65]%N [] in
+   let b := Nav.Node 3 [66]%N [(cont, [c])] in
+   let root := Nav.Node 1 [82]%N [(cont, [a; Nav.Prim 0 [120]%N; b]); (rf, [Nav.Ref 4])] in
+   Nav.is_node root = true /\ NoDup (map Nav.obj_id (Nav.nodes root)) /\
+   map (fun pn => fst pn) (collect (fun _ => true) (abs (fun c => length c) (fun _ => NoName) root))
+   = [[]; [0]; [1]; [1; 0]]%nat).
+Proof.
+  split.
+  - eexists. split; [vm_compute; reflexivity | split; reflexivity].
+  - split; [reflexivity|]. split; [|reflexivity].
+    vm_compute. repeat constructor; simpl; intuition discriminate.
+Qed.
+Print Assumptions C07_bridges_nonvacuous.
